@@ -139,7 +139,10 @@ func TestC17(t *testing.T) {
 		"instantiated second provider (external first / sibling first), real start-up (topology.json -> LoadConfig -> NewConnector " +
 		"-> ConfigDataplane), real start-up with an owned interface on the second provider} x sibling sockets {own connected " +
 		"socket, shared internal socket}; one case per socket the router opens; non-trivial = receive != send (a swap is " +
-		"observable); S = {0,1,4096,2^20} quick, 9 values thorough"
+		"observable); S = {0,1,4096,2^20} quick, 9 values thorough. Second half: (receive, send) in T x T, T = {0, 20000, 262144} " +
+		"(thorough 6 values, all within net.core.{r,w}mem_max) x sibling sockets {connected, shared} x internal link on {127.0.0.1, " +
+		"::1}: a data plane on loopback addresses opens REAL sockets through conn.New (internal unconnected, external IPv4 + " +
+		"IPv6 connected, sibling connected); SO_RCVBUF / SO_SNDBUF are read back with getsockopt; one case per socket"
 	c17RegisterAlt()
 	sizes := mc.Pick([]int{0, 1, 4096, 1 << 20}, []int{0, 1, 2, 4095, 4096, 65536, 1 << 20, 1 << 24, 1<<31 - 1})
 	paths := []string{"raw", "raw-lazy-ext-first", "raw-lazy-sib-first", "startup", "startup-lazy"}
@@ -268,13 +271,17 @@ func TestC17(t *testing.T) {
 			r.HarnessError("no socket observed for a provider created by %s", s)
 		}
 	}
+	c17RealSockets(r)
 	r.Extra["configurations"] = nCfg
 	r.Extra["sizes"] = sizes
 	r.Extra["sockets_per_factory_call_site"] = sitesSeen
 	r.Extra["lazy_factory_calls_seen"] = len(c17Alt.args)
 	r.Assumptions = []string{
-		"observation point is the conn.Config handed to the connection opener (what private/underlay/conn turns into " +
-			"SO_RCVBUF / SO_SNDBUF); the kernel's rounding/doubling of the values is outside the router",
+		"two observation points: the conn.Config handed to the connection opener for every construction path, and the socket " +
+			"options of real loopback sockets opened through the real conn.New for a loopback data plane",
+		"Linux reports 2 x the requested buffer size for sizes between the kernel minimum and net.core.{r,w}mem_max (sizes are " +
+			"chosen inside that interval after reading /proc/sys/net/core); a size of 0 means the option is not touched, so the " +
+			"socket must report the same values as an untouched UDP socket of the same process",
 		"a sibling link that shares the internal socket (no local-address reuse) has no socket of its own; it is " +
 			"covered by the internal socket of that configuration",
 	}
